@@ -9,7 +9,7 @@ THEOREMS = ["scratchpad_step", "scratchpad_strict", "scratchpad_monotone", "scra
             "tx_step_union", "tx_is_union", "tx_order_independent", "txs_always_valid",
             "register_step_union", "register_is_union",
             "concurrent_lost_update_refuted", "concurrent_lost_transaction_refuted",
-            "register_overwritten_before_ack_refuted"]
+            "register_overwritten_before_ack_refuted", "tx_signed_bytes_injective", "tampered_tx_invalid"]
 RULE = ("serial histories of 1-12 deliveries per key over 2 owners: scratchpads with counters lower / equal / higher "
         "than the stored one, signed by the owner / by another key / junk / none / a signature made for another "
         "counter, through paid uploads (payment passing or failing), unpaid updates (key held or not) and replicated "
@@ -332,7 +332,7 @@ def concurrent_cases(rng, thorough):
 
 def gen(ctx):
     thorough = ctx.tier != "quick"
-    cs = concurrent_cases(ctx.rng, thorough) + pv.cross_kind_cases() + pv.back_to_back_cases() + pv.raw_chunk_cases() + pv.pad_boundary_cases() + pv.reg_branch_cases() + pv.forged_update_cases()
+    cs = concurrent_cases(ctx.rng, thorough) + pv.cross_kind_cases() + pv.back_to_back_cases() + pv.raw_chunk_cases() + pv.pad_boundary_cases() + pv.tx_tamper_cases() + pv.reg_branch_cases() + pv.forged_update_cases()
     n = 350 if not thorough else 6000
     cs += [rand_history(ctx.rng) for _ in range(n)]
     return cs
